@@ -79,8 +79,12 @@ class _FilesystemDataSource(DataSource):
     def _write_non_versioned_link(self, versioned_key: VersionedDataSourceKey):
         non_versioned_path = self._get_non_versioned_link_path(versioned_key.key)
         versioned_path = self._get_path_versioned(versioned_key)
-        with open(str(non_versioned_path), "w") as f:
+        # Write the link next to the (uniquely named) version it points to and move it into
+        # place atomically: a crash or an I/O error must never leave an empty or truncated link.
+        tmp_path = versioned_path.with_name(versioned_path.name + ".link.tmp")
+        with open(str(tmp_path), "w") as f:
             f.write(str(versioned_path))
+        os.replace(str(tmp_path), str(non_versioned_path))
 
     def _delete_non_versioned_link(self, key: DataSourceKey):
         non_versioned_path = self._get_non_versioned_link_path(
@@ -206,6 +210,9 @@ class _FilesystemDataSource(DataSource):
         # Remove objects
         for match in versions_dir.glob("*/{}".format(basename)):
             match.unlink()
+            tmp_link = match.with_name(match.name + ".link.tmp")
+            if tmp_link.is_file():
+                tmp_link.unlink()  # left behind by an interrupted link write
             match.parent.rmdir()  # remove uuid dir as well
         if len(list(versions_dir.iterdir())) == 0:
             versions_dir.rmdir()
